@@ -723,15 +723,22 @@ def mon_results(sc, r):
         if gotn == want and len(gotn) > 1:
             flaky_lines = []
             for line in r.stderr.split("\n"):
-                mm = re.match(r"\s+(?:TRY (\d+) )?(PASS|LEAK|FAIL \+ LEAK|FAIL|XFAIL|TIMEOUT|FLAKY \S+|SIG[A-Z0-9]+|ABORT SIG \d+)\s+\[[^\]]*\]\s+(.*)$", line)
+                mm = re.match(r"\s+(?:TRY (\d+) )?(PASS|LEAK|FAIL|XFAIL|TMT|FLAKY \S+|SIG \d+|[A-Z][A-Z0-9]+)\s+\[[^\]]*\]\s+(.*)$", line)
                 if not mm or mm.group(3).rstrip("\r") != f"{binary_id(t)} {t['name']}": continue
                 if mm.group(2).startswith("FLAKY"): flaky_lines.append(mm.group(2)); continue
+                if mm.group(2) in ("SLOW", "TRMNTG"): continue      # progress notices of a running attempt, not results
                 if mm.group(1) and 1 <= int(mm.group(1)) <= len(gotn):
                     g = gotn[int(mm.group(1)) - 1]
+                    if g.startswith("FS") and g[2:].isdigit():
+                        n = int(g[2:]); oks = {f"SIG {n}"} | ({LINUX_SIGNAMES[n]} if n in LINUX_SIGNAMES else set())
+                        if mm.group(2) not in oks:
+                            out.append(viol(sc, r, "result", f"test {t['name']!r}: attempt {mm.group(1)} was ended by signal {n} and its line says {mm.group(2)!r} (expected one of {sorted(oks)})"))
+                        continue
+                    SHORT = dict(STATUS_WORD, T="TMT", Fl="FAIL")
+                    if g in SHORT and mm.group(2) != SHORT[g] and not (g == "L" and mm.group(2) == "PASS"):
+                        out.append(viol(sc, r, "result", f"test {t['name']!r}: attempt {mm.group(1)} ended {g} and its line says {mm.group(2)!r} (expected {SHORT[g]!r})"))
                     # (a flaky test's passing attempt is shown as `TRY k PASS` also when it leaked: a leak is a pass, and the
                     #  structured result — events, statistics, JUnit — carries the leak; not demanded here)
-                    if g in STATUS_WORD and mm.group(2) != STATUS_WORD[g] and not (g == "L" and mm.group(2) == "PASS"):
-                        out.append(viol(sc, r, "result", f"test {t['name']!r}: attempt {mm.group(1)} ended {g} and its line says {mm.group(2)!r} (expected {STATUS_WORD[g]!r})"))
             is_flaky = gotn[-1] in ("P", "L")
             if is_flaky and not any(f == f"FLAKY {len(gotn)}/{total}" for f in flaky_lines):
                 out.append(viol(sc, r, "flaky", f"test {t['name']!r} passed on attempt {len(gotn)} of {total} after failed attempts but is not shown as FLAKY {len(gotn)}/{total} (lines: {flaky_lines})"))
